@@ -29,6 +29,7 @@ import (
 
 	"verifharness/internal/vgen"
 	"verifharness/internal/vstore"
+	"verifharness/internal/vwatch"
 )
 
 var ctx = context.Background()
@@ -108,6 +109,8 @@ func (s step) String() string {
 		return "restart"
 	case "pause":
 		return fmt.Sprintf("pause %dms", s.Ms)
+	case "longpoll":
+		return "long-poll on the source for an absent blob"
 	case "settle":
 		return "settle"
 	}
@@ -933,6 +936,23 @@ func run(sc *scenario) (res *result) {
 			r.tracef("step %d %s", i, st)
 		case "pause":
 			time.Sleep(time.Duration(st.Ms) * time.Millisecond)
+		case "longpoll":
+			// another client long-polls the source (stat/enumerate with maxwaitsec end up here) for a blob
+			// that never arrives: it registers with the source's blob hub and must come back at its deadline,
+			// whatever happened to earlier uploads (e.g. an enqueue hook that failed)
+			wr := vwatch.Run(func() {
+				blobserver.WaitForBlob(ep.from, time.Now().Add(2*time.Millisecond), []blob.Ref{vgen.RefOf("sha224", []byte("c19-never-uploaded"))})
+			})
+			r.tracef("step %d %s", i, st)
+			r.label("step/longpoll-on-source")
+			if wr.TimedOut {
+				if wr.Parked {
+					r.violate("step %d: %s", i, wr.Describe("a 2 ms long-poll (blobserver.WaitForBlob) on the source store"))
+				} else {
+					r.stopWith(&stop{inconclusive: wr.Describe("a 2 ms long-poll on the source store")})
+					return
+				}
+			}
 		case "settle":
 			r.settle(ep)
 		case "restart":
